@@ -203,7 +203,9 @@ CHECKS['C15'] = dict(
           'other app is the same value afterwards (frame), without a database nothing changes; the purge\'s clean-up '
           'of the stored signature removes at most the purged app\'s own entry and keeps every other entry, empty '
           'ones included (C15_purge_frame, C15_purge_no_new_entries; the clean-up mode is read from the source, '
-          'C15_source_purge_cleanup); an app whose label was changed is not reported as deleted when the lookup goes '
+          'C15_source_purge_cleanup); after a purge no entry of the purged app is left, whatever it recorded, when '
+          'emptiness looks at the models only (C15_purge_removes_own_entry; AppSignature.is_empty read from the source, '
+          'C15_source_is_empty; counterexample for a test that also wants the recorded migrations gone); an app whose label was changed is not reported as deleted when the lookup goes '
           'through legacy labels (C15_relabelled_app_not_deleted, C15_source_deleted_lookup); owned-table list incl. '
           'auto-created many-to-many tables, prefix table names are different tables. On the real code: generated '
           'projects of two installed apps plus a stale app (tables + signature entries, not installed) with cross-app '
